@@ -416,6 +416,12 @@ class ExprMixin:
 
     def compare(self, op, a, b):
         ctx = self.ctx
+        if isinstance(op, (ast.Eq, ast.NotEq)):
+            # object == str: classes whose __eq__ compares str(self) (HedGroup/HedString/HedTag) - via the __str__ view
+            for x, y in ((a, b), (b, a)):
+                if isinstance(x, SV) and x.ty.name == "Ref" and is_str(y) and self.field_info(x.ty.args[0].name, "__str__"):
+                    r = ctx.equal(self.field_read(x, "__str__"), y)
+                    return r if isinstance(op, ast.Eq) else self._not(r)
         if isinstance(op, ast.Eq):
             return ctx.equal(a, b)
         if isinstance(op, ast.NotEq):
